@@ -291,6 +291,7 @@ class Engine:
         self.loop_depth = 0
         self.func_stack = []
         self.cur_line = 0
+        self.spec_conds = []
 
     # -------------------------------------------------------------- path exploration
     def explore(self, run_once, max_paths=5000):
@@ -310,6 +311,7 @@ class Engine:
             self.loop_depth = 0
             self.call_depth = 0
             self.func_stack = []
+            self.spec_conds = []
             self.heap = []
             self.frames = []
             self.check_results = []
@@ -620,7 +622,7 @@ class Engine:
                     w = max(len(ca), len(cb))
                     ca = [0] * (w - len(ca)) + ca
                     cb = [0] * (w - len(cb)) + cb
-                    cb_ = B.cond_to_bit(c)
+                    cb_ = self.cond_bit(c)
                     cells = [B.bite(cb_, V.cell_bit(x), V.cell_bit(y)) for x, y in zip(ca, cb)]
                     r = int_from_cells(cells)
                     a_expl = isinstance(a, int) or a._term is not None
@@ -677,6 +679,47 @@ class Engine:
         except Exception:
             pass
         return SIte(c, a, b)
+
+    def cond_bit(self, c):
+        """bit for a merge condition.  A condition that mentions exactly one primitive frame bit x and is
+        equivalent to x (or to not x) under the path condition - e.g. "first sample of the pulse pair >=
+        second" for a pair built from bit x - is replaced by that bit, so that XOR-closed reasoning (CRC)
+        downstream stays in the affine domain.  Two solver queries; sound (equivalence is proved)."""
+        b = B.cond_to_bit(c)
+        if not isinstance(b, B.ZB):
+            return b
+        names = set()
+        stack = [b.e]
+        seen = set()
+        while stack and len(names) <= 1:
+            e = stack.pop()
+            i = e.get_id()
+            if i in seen:
+                continue
+            seen.add(i)
+            if z3.is_const(e) and z3.is_bool(e) and e.decl().kind() == z3.Z3_OP_UNINTERPRETED:
+                names.add(e.decl().name())
+            else:
+                stack.extend(e.children())
+        if len(names) == 0:
+            # no frame bit involved: the condition may simply be implied (or refuted) by the path condition
+            if not self.feasible_spec(z3.Not(b.e)):
+                return 1
+            if not self.feasible_spec(b.e):
+                return 0
+            return b
+        if len(names) != 1:
+            return b
+        idx = B._BYNAME.get(next(iter(names)))
+        if idx is None:
+            return b
+        x = B.Aff(1 << idx, 0)
+        xz = B.to_z3(x)
+        if not self.feasible_spec(z3.Xor(b.e, xz)):
+            return x
+        if not self.feasible_spec(z3.Not(z3.Xor(b.e, xz))):
+            return B.bnot(x)
+        return b
 
     def force(self, v):
         """resolve generic merges by forking"""
@@ -1258,7 +1301,7 @@ class Engine:
         if isinstance(obj, SBin):
             return sbin_or_str(obj.cells[a:b])
         if isinstance(obj, SHex):
-            return SHex(obj.cells[4 * a : 4 * b], obj.upper[a:b]) if b > a else ""
+            return V.shex_or_str(obj.cells[4 * a : 4 * b], obj.upper[a:b]) if b > a else ""
         if isinstance(obj, SStr):
             chars = obj.chars()
             return mkstr(chars[a:b])
@@ -1375,6 +1418,17 @@ class Engine:
                 if raise_on_missing:
                     raise PyExc("KeyError", "symbolic key")
                 return default
+            vals = [v for _, v in cands]
+            if len(vals) > 1 and all(isinstance(v, SDict) for v in vals) and \
+               all(set(v.d) == set(vals[0].d) for v in vals):
+                # rows of a literal table (same columns): one merged row instead of a fork per key
+                row = {}
+                for col in vals[0].d:
+                    r_ = cands[-1][1].d[col]
+                    for kk, v in reversed(cands[:-1]):
+                        r_ = self.vmerge(key.term == kk, v.d[col], r_)
+                    row[col] = r_
+                return self.new_heap(SDict(row))
             res = cands[-1][1]
             for kk, v in reversed(cands[:-1]):
                 res = self.vmerge(key.term == kk, v, res)
@@ -2018,7 +2072,23 @@ class Engine:
         raise Unsupported("setitem on %r" % type(obj).__name__)
 
     def concretize_key(self, obj, key):
-        raise Unsupported("symbolic key in dict store: %r" % (key,))
+        """dict keys must be concrete: fork over the symbolic characters of a short string key"""
+        chars = self.str_chars(key) if self.is_strlike(key) else None
+        if chars is None or len(chars) > 8:
+            raise Unsupported("symbolic key in dict store: %r" % (key,))
+        out = []
+        for ch in chars:
+            if isinstance(ch, str):
+                out.append(ch)
+            elif isinstance(ch, SBin):
+                b = V.cell_bit(ch.cells[0])
+                out.append("01"[b] if isinstance(b, int) else ("1" if self.decide(B.to_z3(b)) else "0"))
+            elif isinstance(ch, SChr) and not isinstance(ch.code, int):
+                code = SInt(ch.code, None, 0, 0x10FFFF)
+                out.append(chr(self.concretize_int(code, "key character")))
+            else:
+                raise Unsupported("symbolic key in dict store: %r" % (key,))
+        return "".join(out)
 
     def s_Delete(self, node, env):
         for t in node.targets:
@@ -2088,33 +2158,67 @@ class Engine:
         if z3.is_true(cs) or z3.is_false(cs):
             self.exec_block(node.body if z3.is_true(cs) else node.orelse, env)
             return
-        if not has_jump(node):
-            snap = self.snapshot()
-            self.merge_begin()
+        # merge first, ask the solver later.  An arm that contains a jump (return / break / raise ...) can
+        # only be merged away when it is infeasible under the path condition and the conditions of the
+        # enclosing speculative arms - that is checked with one solver query per such arm.
+        jump_body = _block_has_jump(node.body)
+        jump_else = _block_has_jump(node.orelse)
+        notc = z3.Not(c)
+        skip_body = jump_body and not self.feasible_spec(c)
+        skip_else = jump_else and not self.feasible_spec(notc)
+        if skip_body and skip_else:
+            raise PathInfeasible()
+        if skip_body or skip_else:
+            # exactly one arm can execute: no merge, no fork; remember the fact for later queries
+            if self.merge_depth:
+                self.spec_conds.append(notc if skip_body else c)
+                try:
+                    self.exec_block(node.orelse if skip_body else node.body, env)
+                finally:
+                    self.spec_conds.pop()
+            else:
+                self.ps.add(notc if skip_body else c)
+                self.exec_block(node.orelse if skip_body else node.body, env)
+            return
+        snap = self.snapshot()
+        self.merge_begin()
+        try:
+            self.spec_conds.append(c)
             try:
                 self.exec_block(node.body, env)
-                sa = self.snapshot()
-                self.restore(snap)
-                self.exec_block(node.orelse, env)
-                sb = self.snapshot()
-                ok = True
-            except (MergeAbort, PyExc, PathInfeasible):
-                ok = False
             finally:
-                self.merge_end()
-            if ok:
-                try:
-                    self.merge_states(c, sa, sb, snap)
-                    self.stats["merges"] += 1
-                    return
-                except MergeAbort:
-                    pass
+                self.spec_conds.pop()
+            sa = self.snapshot()
             self.restore(snap)
-            self.stats["merge_aborts"] += 1
+            self.spec_conds.append(notc)
+            try:
+                self.exec_block(node.orelse, env)
+            finally:
+                self.spec_conds.pop()
+            sb = self.snapshot()
+            ok = True
+        except (MergeAbort, PyExc, PathInfeasible):
+            ok = False
+        finally:
+            self.merge_end()
+        if ok:
+            try:
+                self.merge_states(c, sa, sb, snap)
+                self.stats["merges"] += 1
+                return
+            except MergeAbort:
+                pass
+        self.restore(snap)
+        self.stats["merge_aborts"] += 1
         if self.decide(c):
             self.exec_block(node.body, env)
         else:
             self.exec_block(node.orelse, env)
+
+    def feasible_spec(self, cond):
+        if self.spec_conds:
+            cond = z3.And(*(self.spec_conds + [cond]))
+        return self.ps.feasible(cond)
 
     def s_For(self, node, env):
         items = self.iterate(self.force(self.eval(node.iter, env)))
@@ -2293,6 +2397,15 @@ class _JumpFinder(ast.NodeVisitor):
 
     def visit_Lambda(self, n):
         return
+
+
+def _block_has_jump(stmts):
+    f = _JumpFinder()
+    for st in stmts:
+        f.visit(st)
+        if f.found:
+            return True
+    return False
 
 
 def has_jump(ifnode):
